@@ -13,6 +13,9 @@ pub const OBF_CLASSES: &[&str] = &[
     "x.\u{e0}", "x.\u{e8}", "x.\u{e9}", "x.\u{ea}", "x.\u{eb}", "x.\u{e9}a", "x.",
     // spaces inside an obfuscated name (legal: it extends to the colon), precomposed vs decomposed é
     "a b", "a\tb", " a", "a ", "e\u{301}", "\u{e9}", "A.a", "a.A",
+    // a literal '/' in a class name (descriptors spell '.' as '/'), and obfuscated names that stay
+    // in platform-looking packages
+    "a/b", "a/a", "p/q.r", "java.util.a", "javax.b", "android.support.v4.app.e", "kotlin.c",
 ];
 pub const ORIG_CLASSES: &[&str] = &[
     "com.example.Foo",
